@@ -97,6 +97,7 @@ func originProbes(c *cors.Config, r R) []string {
 			out = append(out, nm[0], nm[2], nm[1])
 			out = append(out, nm[r.Intn(len(nm))], nm[r.Intn(len(nm))])
 			out = append(out, wrapPortOrigins(p)...)
+			out = append(out, defaultPortOrigins(p)...)
 		}
 	}
 	return out
@@ -193,6 +194,21 @@ func wrapPortOrigins(pat string) []string {
 	}
 	base := strings.Replace(pat[:i], "://*.", "://sub.", 1)
 	return []string{base + ":" + addDecimal("18446744073709551616", n), base + ":" + strconv.Itoa(n+1<<32)}
+}
+
+// defaultPortOrigins: the origin a port-less http/https pattern denotes, with the scheme's default port (and the other
+// scheme's) spelled out - never allowed: serialized origins omit the default port
+func defaultPortOrigins(pat string) []string {
+	idx := strings.Index(pat, "://")
+	if idx < 0 {
+		return nil
+	}
+	rest := pat[idx+3:]
+	if i := strings.LastIndexByte(rest, ':'); i >= 0 && !strings.HasSuffix(rest, "]") {
+		return nil // the pattern has a port
+	}
+	base := pat[:idx+3] + strings.Replace(rest, "*.", "sub.", 1)
+	return []string{base + ":443", base + ":80"}
 }
 
 func genRequest(c *cors.Config, r R) reqT {
